@@ -29,18 +29,43 @@ LATTICE = [0, 1, 2, 3]
 STAGE = st.fixed_dictionaries({
     "mode": st.sampled_from(["deferred", "deferred", "sync", "chained"]),
     "delay": st.sampled_from(LATTICE),
-    "result": st.sampled_from(["ok", "ok", "ok", "ok", "error", "fail", "skip"]),
+    "result": st.sampled_from(["ok", "ok", "ok", "ok", "ok", "error", "fail", "skip", "error_falsy"]),   # error_falsy: an exception whose bool() is False
     "never": st.sampled_from([False] * 9 + [True]),
     "leave_call": st.one_of(st.none(), st.none(), st.none(), st.sampled_from([0, 1, 2, 5, 9])),
     "log_err": st.sampled_from(["no"] * 7 + ["one", "two_flush_one", "one_flush_it"]),
     "drop_failed": st.sampled_from([False] * 7 + [True]),
 })
-CASE = st.fixed_dictionaries({
+CASE_RANDOM = st.fixed_dictionaries({
     "setUp": STAGE, "test": STAGE, "tearDown": STAGE, "cleanups": st.lists(STAGE, max_size=3),
     "timeout": st.sampled_from([20, 20, 20, 6, 4, 3, 2, 1, 12]), "interrupt": st.one_of(st.none(), st.none(), st.none(), st.none(), st.sampled_from([0, 1, 2, 3, 5, 9])),
     "variant": st.sampled_from(["plain", "broken"]), "suppress": st.booleans(), "store": st.booleans(),
     "ties": st.lists(st.integers(0, 3), max_size=5),
 })
+
+
+QUIET = st.fixed_dictionaries({
+    "mode": st.sampled_from(["deferred", "deferred", "sync", "chained"]), "delay": st.sampled_from(LATTICE), "result": st.just("ok"),
+    "never": st.just(False), "leave_call": st.none(), "log_err": st.just("no"), "drop_failed": st.just(False)})
+SINGLE_FAULT = st.sampled_from([("result", "error"), ("result", "fail"), ("result", "skip"), ("result", "error_falsy"), ("result", "error"),
+                                ("log_err", "one"), ("log_err", "two_flush_one"), ("drop_failed", True), ("leave_call", 5), ("never", True)])
+
+
+@st.composite
+def s_single_fault(draw):
+    """A quiet program (every stage succeeds well inside the timeout) with exactly one generated fault in one stage:
+    the fault is the only thing that can make the outcome differ from success."""
+    spec = {"setUp": draw(QUIET), "test": draw(QUIET), "tearDown": draw(QUIET), "cleanups": draw(st.lists(QUIET, max_size=3)),
+            "timeout": 20 if draw(st.integers(0, 5)) else 12, "interrupt": None, "variant": draw(st.sampled_from(["plain", "broken"])),
+            "suppress": draw(st.booleans()), "store": draw(st.booleans()), "ties": draw(st.lists(st.integers(0, 3), max_size=5))}
+    names = ["setUp", "test", "tearDown"] + ["cleanup%d" % i for i in range(len(spec["cleanups"]))] * 2
+    where = draw(st.sampled_from(names))
+    field, value = draw(SINGLE_FAULT)
+    stage = spec["cleanups"][int(where[7:])] if where.startswith("cleanup") else spec[where]
+    stage[field] = value
+    return spec
+
+
+CASE = st.one_of(CASE_RANDOM, CASE_RANDOM, s_single_fault())
 
 
 def model(spec):
@@ -95,7 +120,7 @@ def model(spec):
             tie = True
         t = fire
         if s["result"] != "ok":
-            bad.add({"error": "error", "fail": "failure", "skip": "skip"}[s["result"]])
+            bad.add({"error": "error", "error_falsy": "error", "fail": "failure", "skip": "skip"}[s["result"]])
             if name == "setUp":
                 setup_ok = False
     if terminated:
@@ -161,7 +186,8 @@ def run_case(spec):
                 defer.fail(RuntimeError("dropped-MARK"))
 
             def exc():
-                return {"error": RuntimeError("stage-MARK"), "fail": case.failureException("stage-MARK"),
+                from vp.programs import FalsyError
+                return {"error": RuntimeError("stage-MARK"), "fail": case.failureException("stage-MARK"), "error_falsy": FalsyError("stage-MARK"),
                         "skip": case.skipException("stage-MARK")}[s["result"]]
             if s["mode"] == "sync":
                 if s["result"] != "ok":
@@ -356,7 +382,9 @@ def observe(spec, reactor):
             flush_logged_errors(ValueError)
         if s["drop_failed"]:
             defer.fail(RuntimeError("dropped-MARK"))
-        exc = {"error": RuntimeError("stage-MARK"), "fail": case.failureException("stage-MARK"), "skip": case.skipException("stage-MARK")}.get(s["result"])
+        from vp.programs import FalsyError
+        exc = {"error": RuntimeError("stage-MARK"), "fail": case.failureException("stage-MARK"), "skip": case.skipException("stage-MARK"),
+               "error_falsy": FalsyError("stage-MARK")}.get(s["result"])
         if s["mode"] == "sync":
             if exc is not None:
                 raise exc
